@@ -66,6 +66,7 @@ extern void cfg_yylex_destroy(void);
 extern int  cfg_lexer_include(cfg_t *cfg, const char *fname);
 extern void cfg_scan_fp_begin(FILE *fp);
 extern void cfg_scan_fp_end(void);
+extern void cfg_lexer_include_unwind(void);
 
 static int cfg_parse_internal(cfg_t *cfg, int level, int force_state, cfg_opt_t *force_opt);
 static void cfg_free_opt_array(cfg_opt_t *opts);
@@ -1699,6 +1700,7 @@ DLLIMPORT int cfg_parse_fp(cfg_t *cfg, FILE *fp)
 	cfg->line = 1;
 	cfg_scan_fp_begin(fp);
 	ret = cfg_parse_internal(cfg, 0, -1, NULL);
+	cfg_lexer_include_unwind();
 	cfg_scan_fp_end();
 	if (ret == STATE_ERROR)
 		return CFG_PARSE_ERROR;
